@@ -33,6 +33,7 @@ def default_params(tier):
     p["size_hi"] = 14 if tier == "quick" else 24
     p["max_comps"] = 3
     p["max_tasks"] = 3
+    p["filled_weight"] = 4   # is_filled echoes make per-instance state that leaks between threads observable
     p["strata"] = ["clean", "provide", "lru", "media", "mixed"]
     return p
 
